@@ -1,6 +1,7 @@
 import GeoVerif.Corr.Proto
 import GeoVerif.Model.AuxLat
 import GeoVerif.Series.AuxSeries
+import GeoVerif.Corr.C15Model
 /-!
 Correspondence for C15.
 
@@ -9,7 +10,9 @@ Correspondence for C15.
 * `auxser`: the model of the series path of `AuxLatitude::Convert` (tables from `Gen/AuxSeries.lean`) against the
   implementation, and the measured error of the implementation against the harness oracle is judged here against
   16 ulp + the truncation bound computed from the extracted tables.
-* everything else is judged by the harness oracles on the implementation.
+* `m15_*`: `EllipticFunction`, `AuxAngle`, the exact methods of `AuxLatitude` and the `Ellipsoid` measures against
+  `Model/Elliptic.lean` / `Model/AuxExact.lean` in running-error arithmetic (`Corr/C15Model.lean`).
+* the other ops are judged by the harness oracles on the implementation.
 -/
 namespace GeoVerif.Corr.C15
 open GeoVerif GeoVerif.Proto GeoVerif.AuxLat
@@ -78,6 +81,6 @@ def handle (op : String) (args res : List String) : Option Verdict :=
     | _ => .bad "parse"
   | "auxconv" | "auxlaws" | "ellmeas" | "elldeg" | "ellinc" | "ellmono" | "ellcomp" | "ellinv" | "carlson" =>
     some (.skip "judged by the harness oracles on the implementation")
-  | _ => none
+  | _ => C15M.handle op args res
 
 end GeoVerif.Corr.C15
